@@ -7,4 +7,4 @@ From FA.Model Require Import LambdaFinder LambdaFinderSpec.
 Extraction Language OCaml.
 Extraction "model.ml" expr_eqb size z_to_string z_of_string nat_to_string Z.of_nat
   find_gen scan_stream backup extent ext_stop rows_okb lambda_atb not_nestedb called_byb key_before
-  segs_ok tail_ok layout_toks lambda_index seg_toks supported_layoutb seg_start end_ok seg_matches.
+  segs_ok tail_ok layout_toks lambda_index seg_toks supported_layoutb seg_start end_ok seg_matches recognisedb nested_ok def_layoutb def_scan.
